@@ -22,7 +22,7 @@ func (*C08) Rule() string {
 }
 
 func (*C08) Plan(tier string) orch.Plan {
-	p := orch.Plan{Episodes: 3000, Batch: 1, NeedRace: true, RaceEpisodes: 96, RaceBatch: 8,
+	p := orch.Plan{Episodes: 3000, Batch: 1, NeedRace: true, NeedFine: true, RaceEpisodes: 96, RaceBatch: 8,
 		Assumptions: []string{
 			"preemption only at user-callback boundaries (attribute Key/Value, String, Error, context Value, Write, SetLevel); the race detector's verdict does not depend on where the switch happened",
 			"race world: the real sync.Pool runs (its own race annotations are what orders Put/Get), so which pooled object a task receives is not on the tape there",
@@ -124,6 +124,29 @@ func (p *C08) Gen(seed uint64, i int, tier string) *scen.Scenario {
 	if race {
 		G = scen.Pick(r, []int{2, 3, 4, 8})
 		N = r.Range(2, 20)
+	}
+	// scheduling style (swarm): stay-probability at callback boundaries; PCT-like "d preemptions at
+	// random depths"; and the same in the world built with rule R4, where every function entry of
+	// package slog is a yield point, so a preemption can fall between any two calls inside logg
+	if !race {
+		switch i % 4 {
+		case 1:
+			sc.World.Fine = true
+			sc.Sched.PCTDepth = r.Range(1, 4)
+			sc.Sched.Horizon = scen.Pick(r, []int{60, 300, 1500, 6000})
+			G = scen.Pick(r, []int{2, 2, 3, 4})
+			N = r.Range(1, 6)
+		case 2:
+			sc.Sched.PCTDepth = r.Range(1, 6)
+			sc.Sched.Horizon = scen.Pick(r, []int{20, 100, 500})
+		case 3:
+			if r.Bool() {
+				sc.World.Fine = true
+				sc.Sched.StayPermille = r.Range(950, 998)
+				G = scen.Pick(r, []int{2, 3})
+				N = r.Range(1, 4)
+			}
+		}
 	}
 	tk := 0
 	sevs := []int{model.Error, model.Warn, model.Info, model.Debug, model.Always, model.OK}
@@ -428,7 +451,21 @@ func (p *C08) Check(sc *scen.Scenario, run *orch.Run, env *orch.Env) []orch.Viol
 			sort.Strings(s)
 			return s
 		}
+		seq := func(ps []kv) string {
+			var s []string
+			for _, p := range ps {
+				k := p.Key
+				if l.format == fmtJSON {
+					k = leafKey(k)
+				}
+				s = append(s, fmt.Sprintf("%s=%d", k, p.Val))
+			}
+			return strings.Join(s, " ")
+		}
 		ws, gs := norm(want), norm(got)
+		if strings.Join(ws, " ") == strings.Join(gs, " ") && seq(want) != seq(got) {
+			add("C08.corrupt", "attr-order", "record of call %s (task %d, logger %d, %s) has the call's attributes but not in ascending key order: expected [%s] got [%s]", tk, c.task, c.op.L, fmtNames[l.format], seq(want), seq(got))
+		}
 		if strings.Join(ws, " ") != strings.Join(gs, " ") {
 			kind := "attrs"
 			if len(gs) < len(ws) {
